@@ -463,6 +463,15 @@ class VirtualOperator(abc.ABC):
         keywords.update(self.options)
         return type(self)(*args, **keywords)
 
+    @staticmethod
+    def _as_argument(coeff, expr, values):
+        """give an array-valued derivative coefficient the shape of the evaluated argument it belongs to
+        (expressions broadcast numpy-style; the operator aligns a lower-rank coefficient from the first axis)"""
+        if np.ndim(coeff) == 0:
+            return coeff
+        shape = np.broadcast_shapes(np.shape(coeff), np.shape(expr(**values)))
+        return np.broadcast_to(coeff, shape)
+
     def build(self, values={}, *, order1=None, order2=None):
         """build (non-virtual) EPG operator"""
         # solve expressions
@@ -500,13 +509,15 @@ class VirtualOperator(abc.ABC):
             variables = set(map(str, expr.variables))
             for var in variables & (order1 | hesvars):
                 # 1st order derivatives
-                d1param = expr.derive(var, **values)
+                d1param = self._as_argument(expr.derive(var, **values), expr, values)
                 _order1.setdefault(var, {}).update({param: d1param})
             for pair in order2:
                 if pair[0] in variables and pair[1] in variables:
                     # 2nd order derivative
                     _order2.setdefault(pair, {})
-                    d2param = expr.derive(pair[0]).derive(pair[1], **values)
+                    d2param = self._as_argument(
+                        expr.derive(pair[0]).derive(pair[1], **values), expr, values
+                    )
                     if np.any(np.asarray(d2param) != 0):
                         _order2[pair].update({param: d2param})
                 elif pair[0] in variables or pair[1] in variables:
